@@ -197,10 +197,23 @@ func freeAddr() string {
 	return l.Addr().String()
 }
 
+// curTracer is where the single, never reassigned instrumentation hook forwards to: the hook
+// variable itself is plain (it lives in /repo under the verif tag) and a server goroutine of an
+// earlier scenario may still be reading it.
+var curTracer atomic.Pointer[Tracer]
+
+func init() {
+	gldap.VerifHook = func(label string, conn, req int) {
+		if t := curTracer.Load(); t != nil {
+			t.Hook(label, conn, req)
+		}
+	}
+}
+
 // startServer starts a real gldap.Server with the tracer installed. opts are server options.
 func startServer(mux *gldap.Mux, tlsc *tls.Config, onClose func(int), extra ...gldap.Option) (*SUT, error) {
 	s := &SUT{tr: NewTracer(), runErr: make(chan error, 1), onClose: onClose}
-	gldap.VerifHook = s.tr.Hook
+	curTracer.Store(s.tr)
 	opts := []gldap.Option{gldap.WithLogger(hclog.NewNullLogger()), gldap.WithOnClose(func(id int) {
 		v, _ := s.closed.LoadOrStore(id, new(int32))
 		atomic.AddInt32(v.(*int32), 1)
